@@ -82,7 +82,7 @@ def hsrv_stream(run):
     H = lambda s: (s if isinstance(s, bytes) else s.encode()).hex()
     acts, expect, hostile_of = [], [], []
     for h in HOSTILE:
-        hostile_of += [h.decode()] * 5
+        hostile_of += [h.decode()] * 6
         hs = h.decode()
         esc = hs.replace("%", "%25")
         # file request: path and query as sent (valid escapes only)
@@ -97,10 +97,13 @@ def hsrv_stream(run):
         # Host that cannot be punycoded / client address with a zone
         acts.append({"a": "direct", "target": "/c", "host": "bad_%s_ÿ.example" % hs, "remote": "[fe80::1%%%s]:4444" % "eth0", "sni": ""})
         expect.append(["[fe80::1%eth0] "])
+        # Host with a label that is not valid punycode: the error names the Host
+        acts.append({"a": "direct", "target": "/c", "host": "xn--%s.example.com" % hs, "sni": ""})
+        expect.append(["?punycoding xn--%s.example.com" % hs])
         acts.append({"a": "direct", "target": "/nofile" + esc, "host": "h", "remote": "[fe80::%s%%eth1]:1" % "2", "sni": ""})
         expect.append(["[fe80::2%eth1] ", "/nofile" + esc])
     cases = [{"i": 0, "cfg": {"fdir": "dir", "tree": [{"p": "a.txt", "c": H("A")}]}, "acts": acts},
-             {"i": 1, "cfg": {"fdir": "dir", "tmpl": H("{{.Nope}}"), "tree": []}, "acts": acts[1::5][:6]}]
+             {"i": 1, "cfg": {"fdir": "dir", "tmpl": H("{{.Nope}}"), "tree": []}, "acts": acts[1::6][:6]}]
     res, err = vlib.run_overlay_test(binp, "TestVerifHsrv", cases, run.rundir, tag="c10hsrv", env=dict(os.environ, VERIF_TMP=run.rundir))
     bad, n = [], 0
     if res:
@@ -109,6 +112,10 @@ def hsrv_stream(run):
             n += len(notes)
             sent = json.dumps(act)
             for frag in ex:
+                if frag.startswith("?"):            # conditional: only when the notice is about that step at all
+                    frag = frag[1:]
+                    if not any(frag.split(" ")[0] in t for t in notes):
+                        continue
                 if not any(frag in t for t in notes):
                     bad.append({"action": act, "notices": notes, "expected_fragment": frag})
             for t in notes:
@@ -130,11 +137,43 @@ def hsrv_stream(run):
                [acts[0], acts[3]])
 
 
+def terminal_stream(run):
+    """The last hop: finished notices full of format verbs through the real Shell; the terminal must show each verbatim."""
+    ok, binp, log = vlib.build_overlay_test(run.rundir, "lib/opshell")
+    if not ok:
+        run.oblige("opshell harness builds against /repo", False, log)
+        return
+    notices = ['[10.0.0.1] File requested: /f%s?x=%s' % (h.decode(), h.decode()) for h in HOSTILE] + \
+              ['[fe80::1%%eth0] Rejected output connection with ID "%s", expected "%s"' % (h.decode(), g.decode()) for h, g in zip(HOSTILE, HOSTILE[3:] + HOSTILE[:3])] + \
+              ['[h] Error determining callback URL: punycoding xn--%s.example: idna: invalid label "%s"' % (h.decode(), h.decode()) for h in HOSTILE]
+    cases = [{"i": k, "chunks": [], "status": [n.encode().hex()]} for k, n in enumerate(notices)]
+    inf, outf = os.path.join(run.rundir, "c10term.in"), os.path.join(run.rundir, "c10term.out")
+    with open(inf, "w") as f:
+        for c in cases:
+            f.write(json.dumps(c) + "\n")
+    env = dict(os.environ, VERIF_CASES=inf, VERIF_OUT=outf, VERIF_TMP=run.rundir)
+    rc, out = vlib.run_under_pty([binp, "-test.run", "^TestVerifPlain$", "-test.count=1", "-test.timeout", "300s"], env, run.rundir, timeout=400)
+    res = [json.loads(l) for l in open(outf)] if os.path.exists(outf) else []
+    bad = []
+    for n, r in zip(notices, res):
+        shown = bytes.fromhex(r.get("shown", "")).decode(errors="replace")
+        if n not in shown:
+            bad.append({"notice_on_the_operator_channel": n, "terminal_shows": shown[-300:]})
+    for b in bad[:1]:
+        run.violation("terminal-notice-format", "a notice is not shown verbatim on the terminal (lib/opshell re-interprets the finished line as a format)",
+                      {"stream": "terminal-notices", "input": {"notice": b["notice_on_the_operator_channel"]}, "detail": b})
+    run.oblige("correspondence terminal: %d finished notices containing format verbs are written to the terminal verbatim by the real Shell" % len(notices),
+               rc == 0 and len(res) == len(cases) and not bad, json.dumps(bad[:3])[:2000] + out[-500:].decode(errors="replace"))
+    run.stream("terminal-notices", len(cases), len(cases), "finished notices (file request, rejected connection, callback-URL error) carrying each hostile "
+               "string, sent as status lines to the real opshell Shell (pty child), terminal output captured", [{"notice": notices[0]}])
+
+
 def check(run):
     vlib.static_obligations(run)
     bad = translator_obligation(run)
     broker_stream(run)
     hsrv_stream(run)
+    terminal_stream(run)
     run.assumptions += ["fmt.Sprintf with a constant format of plain verbs behaves as Lib/Fmt.render (Go standard library; validated by the notice streams)",
                         "%q's quoting is strconv.Quote (not modelled: the operand is taken as already rendered)",
                         "the translator (go/types based, ~250 lines) reports the call sites of the tree faithfully"]
